@@ -334,6 +334,14 @@ func stripScheme(u string) string {
 	return u[p:]
 }
 
+// cleanURLPath cleans the path of an absolute URL; the empty path is the root path
+func cleanURLPath(p string) string {
+	if p == "" {
+		p = "/"
+	}
+	return filepath.Clean(p)
+}
+
 func irisEqual(i1, i2 IRI, checkScheme bool) bool {
 	u, e := i1.URL()
 	uw, ew := i2.URL()
@@ -348,8 +356,7 @@ func irisEqual(i1, i2 IRI, checkScheme bool) bool {
 	if !strings.EqualFold(u.Host, uw.Host) {
 		return false
 	}
-	if !(u.Path == "/" && uw.Path == "" || u.Path == "" && uw.Path == "/") &&
-		!strings.EqualFold(filepath.Clean(u.Path), filepath.Clean(uw.Path)) {
+	if !strings.EqualFold(cleanURLPath(u.Path), cleanURLPath(uw.Path)) {
 		return false
 	}
 	uq := u.Query()
